@@ -129,6 +129,7 @@ def interceptServer (h : Heap) (d : Desc) (hasU hasS : Bool) (wrap : Nat → Nat
 
 /-! concrete interceptor behaviours for the correspondence run -/
 def tPass : UInt := fun info req h => let (es, r) := h req; (.transport info req :: es, r)
+def tRewrite : UInt := fun info req h => let (es, r) := h (req + 1); (.transport info req :: es, r + 1000)
 def dPass (layer : Nat) : UInt := fun info req h => let (es, r) := h req; (.decor layer info req :: es, r)
 def dShort (layer : Nat) : UInt := fun info req _ => ([.decor layer info req], 99)
 def dRewrite (layer : Nat) : UInt := fun info req h => let (es, r) := h (req + 1); (.decor layer info req :: es, r + 1000)
